@@ -19,6 +19,7 @@ FEATURES = {
     "busy-frames": {"mix": "busy"},
     "two-streams": {"mix": "two-streams"},
     "stream-no-len": {"mix": "no-len"},
+    "stream-offsets-descending": {"mix": "offsets-descending", "n_app": 3, "sym_dirs": False, "dirs": [1, 1, 0]},
     "pn-lengths": {"pn_len": {"c_app": "choice", "s_app": "choice"}, "pn_gap": 3},
     "crypto-split-ooo": {"crypto_split": [20, 50], "crypto_order": [2, 0, 1], "crypto_packets": "one"},
     "crypto-split-packets": {"crypto_split": [30], "crypto_order": [1, 0], "crypto_packets": "many"},
